@@ -4,6 +4,7 @@
 //   ipow <w> <b> <e>       -> ipow<uintW>(b, e)
 //   np2rle <w> <lo> <hi>   -> run-length encoding "lo hi val;..." of round_pow2<uintW> over [lo, hi] (every value evaluated)
 //   ipowall8               -> all 65536 results of ipow<uint8_t>(b, e), b-major
+//   ndmapt <u8|u16|u32|i32> N s1..sN -> the same for a tuple type with a narrower value type (N <= 4)
 //   ndmap N s1..sN         -> the tuples handed to the callback, in call order: "a,b;c,d;..." ("-" when none)
 #include <covfie/core/utility/nd_map.hpp>
 #include <covfie/core/utility/nd_size.hpp>
@@ -23,6 +24,17 @@ template <typename T> std::string rle(u64 lo, u64 hi) {
   }
   os << start << " " << hi << " " << static_cast<u64>(cur) << ";";
   return os.str();
+}
+template <typename T, std::size_t N> std::string ndmt(const std::vector<u64> & sz) {
+  using S = covfie::array::array<T, N>;
+  S s; for (std::size_t k = 0; k < N; ++k) s[k] = static_cast<T>(sz[k]);
+  std::ostringstream os; bool any = false;
+  utility::nd_map<S>([&](S t) { if (any) os << ";"; any = true; for (std::size_t k = 0; k < N; ++k) { if (k) os << ","; os << static_cast<u64>(t[k]); } }, s);
+  return any ? os.str() : "-";
+}
+template <typename T> std::string ndmtN(std::size_t N, const std::vector<u64> & sz) {
+  switch (N) { case 1: return ndmt<T, 1>(sz); case 2: return ndmt<T, 2>(sz); case 3: return ndmt<T, 3>(sz); case 4: return ndmt<T, 4>(sz); }
+  return "unsupported";
 }
 template <std::size_t N> std::string ndm(const std::vector<u64> & sz) {
   using S = utility::nd_size<N>;
@@ -51,6 +63,9 @@ int main() {
       std::ostringstream os;
       for (unsigned b = 0; b < 256; ++b) for (unsigned e = 0; e < 256; ++e) os << unsigned(utility::ipow<std::uint8_t>(b, e)) << " ";
       r = os.str();
+    } else if (op == "ndmapt") { std::string ty; std::size_t N; is >> ty >> N; std::vector<u64> sz(N); for (auto & s : sz) is >> s;
+      if (ty == "u8") r = ndmtN<std::uint8_t>(N, sz); else if (ty == "u16") r = ndmtN<std::uint16_t>(N, sz);
+      else if (ty == "u32") r = ndmtN<std::uint32_t>(N, sz); else if (ty == "i32") r = ndmtN<std::int32_t>(N, sz);
     } else if (op == "ndmap") { std::size_t N; is >> N; std::vector<u64> sz(N); for (auto & s : sz) is >> s;
       switch (N) { case 1: r = ndm<1>(sz); break; case 2: r = ndm<2>(sz); break; case 3: r = ndm<3>(sz); break; case 4: r = ndm<4>(sz); break; case 5: r = ndm<5>(sz); break; }
     }
